@@ -132,11 +132,25 @@ def run_case(ctx, case):
     # (3) follow-up in-place mutations on one side are invisible on the other
     side, other = (result, cur) if case["side"] == "result" else (cur, result)
     before = Snapshot(other, skip)
+    # what the other side READS for attributes it does not store itself (init=False attributes fall through to the class-level
+    # default): an in-place change on one side must not show there either
+    def fallthrough(o):
+        d = object.__getattribute__(o, "__dict__")
+        return [[n, getattr(o, n, None)] for n in world.attrs(type(o).__name__) if n not in d and n not in dnc_attrs(world, type(o).__name__)]
+
+    before_reads = Snapshot(fallthrough(other))
+    reads_root = before_reads.root if hasattr(before_reads, "root") else None
     ok_follow = 0
     for op in case["follow"]:
         o, _ = ops.execute(world, side, op)
         if o == "ok":
             ok_follow += 1
+        now_reads = Snapshot(fallthrough(other))
+        if before_reads.structure() != now_reads.structure():
+            ctx.fail(f"{route}|follow:{op_route(world, op)}|visible_through_class_default", case,
+                     f"in-place {op} on the {case['side']} changed what the other instance reads for an attribute it does not store itself: "
+                     f"{before_reads.structure()} -> {now_reads.structure()}")
+            return
         after = Snapshot(other, skip)
         if before.identity_form() != after.identity_form():
             ctx.fail(f"{route}|follow:{op_route(world, op)}|visible_on_{'receiver' if other is cur else 'result'}", case,
